@@ -6,9 +6,11 @@ definitions the reference validator (written from the property text) calls inval
 """
 from __future__ import annotations
 
+import builtins
 import contextlib
 import io
 import json
+import os
 import sys
 
 from sympy import Symbol
@@ -177,27 +179,38 @@ def validate(d):
 
 # --------------------------------------------------------------------------- simulated file system
 class FakeFS:
+    """The entry points' file system: a private scratch directory per call plus a recording shim on formak.cpp.open.
+    What was written is what exists in the directory afterwards (however the code opened it) or what the shim saw."""
+
     def __init__(self):
+        import tempfile
+
+        self.dir = tempfile.mkdtemp(prefix="fsim_fs_", dir=os.environ.get("FSIM_TMP") or None)
+        os.makedirs(os.path.join(self.dir, "generated", "ns"))
+        self.header = os.path.join(self.dir, "generated", "ns", "m.h")
+        self.source = os.path.join(self.dir, "generated", "ns", "m.cpp")
         self.opens = []
-        self.files = {}
 
     def open(self, path, mode="r", *a, **k):
         self.opens.append((str(path), mode))
-        if "w" in mode or "a" in mode or "+" in mode:
-            buf = _Buf(self, str(path))
-            return buf
-        raise FileNotFoundError(path)
+        return builtins.open(path, mode, *a, **k)
 
+    @property
+    def files(self):
+        out = {}
+        for root, _d, names in os.walk(self.dir):
+            for n in names:
+                with builtins.open(os.path.join(root, n), errors="replace") as f:
+                    out[os.path.join(root, n)] = f.read()
+        return out
 
-class _Buf(io.StringIO):
-    def __init__(self, fs, path):
-        super().__init__()
-        self.fs, self.path = fs, path
-        fs.files[path] = ""
+    def wrote(self):
+        return sorted(set([p for p, mode in self.opens if "w" in mode or "a" in mode or "+" in mode]) | set(self.files))
 
     def close(self):
-        self.fs.files[self.path] = self.getvalue()
-        super().close()
+        import shutil
+
+        shutil.rmtree(self.dir, ignore_errors=True)
 
 
 # --------------------------------------------------------------------------- generation
@@ -289,7 +302,7 @@ def execute(schedule) -> Result:
         for name, scope, fn in entries:
             fs = FakeFS()
             argv = sys.argv
-            sys.argv = ["generator.py", "--header", "/sim/generated/ns/m.h", "--source", "/sim/generated/ns/m.cpp", "--namespace", "ns"]
+            sys.argv = ["generator.py", "--header", fs.header, "--source", fs.source, "--namespace", "ns"]
             cpp.open = fs.open  # seam: 'open' is resolved through the module's globals before builtins
             try:
                 outcome, detail = _call(fn)
@@ -298,14 +311,16 @@ def execute(schedule) -> Result:
                 del cpp.open
             res.ops += 1
             valid = v[scope]
-            wrote = [p for p, mode in fs.opens if "w" in mode or "a" in mode]
+            wrote = [os.path.relpath(p_, fs.dir) for p_ in fs.wrote()]
+            files = fs.files
+            fs.close()
             res.log.append(f"{ci} {tag} {name} {outcome} wrote={len(wrote)}")
             res.abstract.append(f"{name}|{tag if len(op['faults']) < 2 else 'pair'}|{outcome}")
             if valid:
                 if outcome != "ok":
                     res.add("C14", "refused_valid", f"C14:{name}:refused_valid:{tag}", ci, "a structurally valid definition is accepted", detail, "py")
-                elif name.startswith("cpp.") and (not getattr(detail, "success", False) or len(fs.files) != 2 or not all(fs.files.values())):
-                    res.add("C14", "valid_not_written", f"C14:{name}:valid_not_written", ci, "header and source written for a valid definition", f"success={getattr(detail, 'success', None)} files={sorted(fs.files)}", "py")
+                elif name.startswith("cpp.") and (not getattr(detail, "success", False) or len(files) != 2 or not all(files.values())):
+                    res.add("C14", "valid_not_written", f"C14:{name}:valid_not_written", ci, "header and source written for a valid definition", f"success={getattr(detail, 'success', None)} files={sorted(os.path.basename(f_) for f_ in files)}", "py")
             else:
                 if outcome == "ok" or outcome == "exit":
                     res.add("C14", "accepted_invalid", f"C14:{name}:accepted:{tag}", ci, f"refused with an error ({', '.join(v['reasons'])})", f"{'returned normally' if outcome == 'ok' else detail}; files opened for writing: {wrote}", "py")
